@@ -94,6 +94,20 @@ def stepC12 (st : St) (op : String) (got : String) : StepResult St :=
     -- that need randomness report an error, the others succeed); it only must not disturb the signer
     { st := st, expected := none, cov := [if got == "err" then "fmk-err" else "fmk-ok"],
       spec := if isCrash got then [⟨"no-panic", "fmk", tk got 160⟩] else [] }
+  | "par" :: _ :: rest =>
+    let tok := rest.getLast?.getD ""
+    let kind := if rest.head? == some "mkd" then "D" else "I"
+    let hasVal := (validatorType tok).isSome
+    let shipped := (if kind == "D" then shippedDataSigners else shippedIntSigners).contains (sigBase tok)
+    let letters := got.toList
+    { st := st, expected := none, cov := ["par"] ++ (if letters.all (· == 'a') then ["par-accepted"] else []),
+      spec :=
+        (if isCrash got ∨ letters.contains 'p' then
+          [⟨"no-panic", "par-" ++ kind ++ "-" ++ sigBase tok, s!"building packets concurrently with one signer instance panicked: {tk got 80}"⟩] else []) ++
+        (if !isCrash got ∧ (letters.contains 'e' ∨ letters.contains 'c') then
+          [⟨"covered", "par-" ++ kind ++ "-" ++ sigBase tok, s!"a packet built concurrently with one signer instance does not decode to the bytes the signer was handed: {got}"⟩] else []) ++
+        (if !isCrash got ∧ hasVal ∧ letters.contains 'r' then
+          [⟨"accepts", "par-" ++ kind ++ "-" ++ sigBase tok, s!"an untampered packet built while another goroutine used the same signer instance is rejected by the matching validator: {got}"⟩] else []) }
   | ["hold"] =>
     match st.last with
     | none => { st := st, expected := some "skip" }
